@@ -67,6 +67,36 @@ def all_ids(exprs):
     return out
 
 
+# Light mode (VERIF_LIGHT=1): the launcher creates no node in ddSMT's main
+# process (it does not apply the proposed simplifications to log their
+# candidates), so that the ids ddSMT draws are those of an unobserved run;
+# instead the inputs of producers / generators and the argument and result of
+# reduplicate are recorded with their identities (judged by Conform.tla).
+LIGHT = bool(os.environ.get('VERIF_LIGHT'))
+
+
+def enc_forest(exprs, limit=400):
+    """Node records of SExpr.tla: {id, t, d, k} (leaf text as one string; the
+    harness expands it)."""
+    n = [0]
+
+    def enc(x):
+        n[0] += 1
+        if n[0] > limit:
+            raise ValueError('too large')
+        if x.is_leaf():
+            return {'id': x.id, 't': 'L', 'd': x.data, 'k': []}
+        return {'id': x.id, 't': 'N', 'd': '', 'k': [enc(c) for c in x.data]}
+    try:
+        return [enc(e) for e in exprs]
+    except Exception:  # noqa
+        return None
+
+
+def light(exprs):
+    return {'forest': enc_forest(exprs)} if LIGHT else {}
+
+
 def distinct_ids(exprs):
     try:
         ids = all_ids(exprs)
@@ -338,7 +368,8 @@ def install(fault=None):
         real_prod_init(self, muts, abort_flag, original, *a, **kw)
         self._verif_original = original
         emit('sweep', muts=cls_names(muts), base=toks(original),
-             distinct=distinct_ids(original), nnodes=nodes.count_nodes(original))
+             distinct=distinct_ids(original), nnodes=nodes.count_nodes(original),
+             **light(original))
 
     def generate(self, skip, params, *a, **kw):
         # extra arguments of a refactored producer are passed through
@@ -347,9 +378,13 @@ def install(fault=None):
         for task in real_generate(self, skip, params, *a, **kw):
             n += 1
             try:
-                simp = pickle.loads(task.simp)
-                cand = mutator_utils.apply_simp(self._verif_original, simp)
-                ct = toks(cand)
+                if LIGHT:
+                    ct = ['<light>']
+                else:
+                    simp = pickle.loads(task.simp)
+                    cand = mutator_utils.apply_simp(self._verif_original,
+                                                    simp)
+                    ct = toks(cand)
             except Exception as e:  # noqa
                 ct = ['<apply failed %s>' % type(e).__name__]
             emit('task', strat='hier', tseq=n, node=task.nodeid,
@@ -373,7 +408,7 @@ def install(fault=None):
              nsubsets=len(self.subsets), nfiltered=self.num_filtered,
              par=self.pickled_exprs is not None, base=toks(exprs),
              distinct=distinct_ids(exprs), max_depth=max_depth,
-             ident=getattr(mutator, 'ident', None))
+             ident=getattr(mutator, 'ident', None), **light(exprs))
 
     def tg_next(self):
         try:
@@ -381,6 +416,9 @@ def install(fault=None):
         except StopIteration:
             emit('gen_stop', index=self.index, stopped=self.stopped)
             raise
+        if LIGHT:
+            emit('task', strat='ddmin', id=task.id, light=True)
+            return task
         try:
             if isinstance(task.exprs, bytes):
                 base = pickle.loads(task.exprs)
@@ -428,7 +466,9 @@ def install(fault=None):
         res = real_redup(exprs)
         emit('redup', before_distinct=distinct_ids(exprs),
              after_distinct=distinct_ids(res),
-             same_tokens=toks(exprs) == toks(res))
+             same_tokens=toks(exprs) == toks(res),
+             **({'f': enc_forest(exprs), 'g': enc_forest(res)}
+                if LIGHT else {}))
         return res
 
     nodes.reduplicate = reduplicate
